@@ -250,6 +250,22 @@ def execute(trace, ctx=None):
                     trailing += 1
                 if got_count != trailing:
                     fail("latest-disagrees", slot, "Indicator.reading_count", {"got": got_count, "want": trailing, "stage": stage})
+                # the same question about ANOTHER member's name living on the same candles
+                for other in m.live_slots():
+                    if other is slot or other.ind.candles is not ind.candles or other.name in CANDLE_ATTRS:
+                        continue
+                    try:
+                        got_other = ind.reading_count(other.name)
+                    except Exception as exc:  # noqa: BLE001
+                        fail("accessor-raises", slot, "reading_count(other):" + type(exc).__name__, {"stage": stage})
+                    want_other = 0
+                    for c in reversed(candles):
+                        if _direct(c, other.name) is None:
+                            break
+                        want_other += 1
+                    if got_other != want_other:
+                        fail("latest-disagrees", slot, "Indicator.reading_count(other name)",
+                             {"got": got_other, "want": want_other, "other": other.name, "stage": stage})
                 if m.kind == "hexital" and own not in CANDLE_ATTRS:
                     # (a member NAMED like a candle attribute - Amorph over positive/negative - resolves to
                     # that attribute on whichever manager Hexital.reading falls through to: the candle
